@@ -136,8 +136,14 @@ def run(tier, seed, replay):
                     ins.append({"t": "arr", "a": [jqgen.V(x) for x in tup[:ar + 1]]})
             src = ".[0] as $x | .[1] as $a | .[2] as $b | .[3] as $c | $x | " + call(name, ar)
             cases.append({"src": src, "inputs": ins, "name": name + "/%d" % ar})
+        OPPAIRS = [({"a": {"b": 1}}, {"a": {"b": 2}}), ({"k": {"a": 1, "b": 2}}, {"k": {"a": 0, "c": 3}}), ({"a": {"b": {"c": 1, "d": 1}}}, {"a": {"b": {"c": 2}, "e": 5}}), ({"a": {"b": 1}}, {"a": 7}), ({"a": 7}, {"a": {"b": 1}}),
+                   ({"a": {"b": 1}}, {"a": None}), ({"a": [1]}, {"a": [2]}), ({"a": {"x": {"y": {"z": 1}}}}, {"a": {"x": {"y": {"z": 2, "w": 3}}}}), ({}, {"a": {"b": 1}}), ({"a": 1, "b": 2}, {"b": 3, "c": 4}),
+                   ([1, 2, 1, 3], [1]), ([[1], [2], [1]], [[1]]), ([1, 2], []), ("a,b,a", ","), ("abab", "ab"), ("", ","), ("abc", ""), ("ab", 3), (3, "ab"), ("ab", 0), ("ab", 0.5), ("ab", -1), ("ab", 1.5), (None, "a"), ("a", None),
+                   (5, 0), (5, 0.5), (-5, 3), (5, -3), (-5, -3), (5.5, 2), (2 ** 64 + 1, 7), (7, 2 ** 64 + 1), (-(2 ** 63), -1), (1, float("nan")), (float("nan"), float("nan")), (float("inf"), 2), ([1, [2]], [1, [2]]),
+                   ({"a": 1}, {"a": 1.0}), ([], {}), (False, None), (None, None), ("a", "A"), ([0], [False])]
         for op in OPERATORS:
             ins = [{"t": "arr", "a": [a, b]} for a in uni for b in uni] if not quick else tuples(1, 120)
+            ins += [{"t": "arr", "a": [jqgen.V(a), jqgen.V(b)]} for a, b in OPPAIRS]
             cases.append({"src": ".[0] %s .[1]" % op, "inputs": ins, "name": op})
         for fmt in ["@text", "@json", "@html", "@uri", "@urid", "@csv", "@tsv", "@sh", "@base64", "@base64d"]:
             extra_in = [{"t": "arr", "a": [jqgen.V(t)]} for t in (ROWS if fmt in ROW_NATIVES else TEXTS)]
@@ -157,9 +163,25 @@ def run(tier, seed, replay):
         counters = evalfam.check_cases(rep, work, vh, prelude, flat, timeout=1200 if quick else 3600, per_shard_min=12)
         rep.cov["verdicts"] = counters
         # --- representation independence + no panic on Go-only inputs (invalid UTF-8)
+        # every builtin / operator / form (not a sample) with numbers in every position: equal scalars on both sides (path validity),
+        # fractional and negative indices and slice bounds, integers beyond 64 bits, numbers inside containers
+        NUMS = [0, 1, -1, 2, 1.5, -0.5, 2.5, 0.5, 3, 10, -7, 2 ** 31, 2 ** 53, 2 ** 64 + 1, [1, 2], [1, 2, 3], [0.5, 1], {"a": 1}, [[1, 2], [3]], [1, 1], "ab", None]
+        numv = [jqgen.V(x) for x in NUMS]
         repcases = []
-        for c in r.sample(flat, min(len(flat), 150 if quick else 1500)):
-            ins = c["inputs"][:10] + [{"t": "arr", "a": [r.choice(BYTES + uni) for _ in range(4)]} for _ in range(3)]
+        for c in cases:
+            k = 12 if quick else 80
+            ins = [{"t": "arr", "a": [r.choice(numv) for _ in range(4)]} for _ in range(k)]
+            ins += [{"t": "arr", "a": [x, x, x, x]} for x in r.sample(numv[:14], 3 if quick else 14)]      # the same number as input and as arguments
+            ins += r.sample(c["inputs"], min(len(c["inputs"]), 4 if quick else 20))
+            ins += [{"t": "arr", "a": [r.choice(BYTES + uni) for _ in range(4)]} for _ in range(3)]
+            if ":" in c["src"] or c["name"] in ("limit/2", "nth/1", "nth/2", "first/1", "flatten/1", "getpath/1", "setpath/2", "delpaths/1", "del/1", "has/1", "range/1", "range/2", "range/3", "splits/1", "ltrimstr/1", "indices/1",
+                                                 "index/1", "implode/0", "tojson/0", "tostring/0", "@text", "@json", "halt_error/1", "error/1", "skip/2", "pick/1", "to_entries/0", "bsearch/1"):
+                # index-like arguments: every fractional / negative / huge bound against arrays and strings (rounding must not depend on the carrier)
+                bounds = [None, 0, 1, -1, 0.5, 1.5, -1.5, 2.5, -0.5, 2 ** 64 + 1]
+                for subj in ([1, 2, 3], "abc", [0.5, [1], "x", None]):
+                    for a in bounds:
+                        for b in (bounds if ":" in c["src"] else [None]):
+                            ins.append({"t": "arr", "a": [jqgen.V(subj), jqgen.V(a), jqgen.V(b), jqgen.V(a)]})
             for rp in (0, 1, 2, 3):
                 repcases.append({"id": len(repcases), "src": c["src"], "inputs": ins, "rep": rp, "group": c["id"]})
         recs = evalfam.replay(work, vh, repcases, tag="reps")
